@@ -89,3 +89,17 @@ pub fn near_values(m: &BigUint, others: &[BigUint]) -> Vec<BigUint> {
 pub fn hex32(v: &BigUint) -> Hex {
     Hex(be32(v))
 }
+
+/// SM2/SM9 private scalars in [1, upper] (32 bytes), biased to edges.
+pub fn secret_scalar(upper: &BigUint) -> impl Strategy<Value = Hex> {
+    let u = upper.clone();
+    scalar256(upper).prop_map(move |h| {
+        let v = BigUint::from_bytes_be(&h.0) % &u; // [0, upper-1]
+        Hex(be32(&(v + BigUint::one())))
+    })
+}
+
+/// message descriptor: (len, seed) -> bytes via expand_bytes; lengths biased to hash-block boundaries
+pub fn msg_len(max: usize) -> impl Strategy<Value = usize> {
+    prop_oneof![2 => 0..=40usize, 2 => boundary_len(max.min(300)), 1 => 0..=max]
+}
